@@ -167,6 +167,15 @@ CHECKS = {
              "builds from the strings, activation, shapes, weights, source model and caller dictionaries) and TLC "
              "judges result = DesignQuantize(dict, model) plus the frame flags.",
         design="7 C12"),
+    "C13": dict(
+        spec="MC_ModelRT + Trace_ModelRT",
+        text="Every quantized layer class of the custom-object table x six weight-quantizer variants (scale_axis, po2 "
+             "exponent bounds, auto scales, po2, ternary, binary) is built as a real model with discriminating "
+             "weights; TLC enumerates the route compositions (json, clone, h5, plus a frozen-layer history) as "
+             "stuttering steps and the TLC trace specification validates every replayed behaviour: bit-identical "
+             "predictions (exact dyadics) and identical quantizer configurations after every route, no route raises, "
+             "no user custom objects.",
+        design="7 C13"),
 }
 
 
